@@ -22,7 +22,7 @@ char vf_last_bad_free[256];
 int  vf_abort_armed = 0;
 jmp_buf vf_abort_jmp;
 char vf_abort_msg[300];
-long vf_fail_k = 0; const char *vf_fail_func = NULL; long vf_fail_seen = 0, vf_fail_fired = 0;
+long vf_fail_k = 0; const char *vf_fail_func = NULL; long vf_fail_seen = 0, vf_fail_fired = 0; int vf_fail_sticky = 0;
 long vf_expand_requests = 0;
 volatile long *vf_progress = NULL;
 
@@ -93,7 +93,7 @@ void *vf_malloc(size_t size, const char *file, int line, const char *func)
     int is_expand = func && (strstr(func, "expand") || strstr(func, "LUMemXpand"));
     if (is_expand) vf_expand_requests++;
     if (vf_fail_k > 0 && (!vf_fail_func || (func && strstr(func, vf_fail_func)))) {
-        if (++vf_fail_seen == vf_fail_k) { vf_fail_fired++; pthread_mutex_unlock(&ht_mu); return NULL; }
+        if (++vf_fail_seen == vf_fail_k || (vf_fail_sticky && vf_fail_seen > vf_fail_k)) { vf_fail_fired++; pthread_mutex_unlock(&ht_mu); return NULL; }
     }
     void *p;
     if (vf_arena_alloc) p = vf_arena_alloc((size ? size : 1) + VF_RZ);
@@ -169,7 +169,7 @@ void vf_release_all(void)
 }
 void vf_reset_case(void)
 {
-    vf_fail_k = 0; vf_fail_func = NULL; vf_fail_seen = 0; vf_fail_fired = 0; vf_expand_requests = 0;
+    vf_fail_k = 0; vf_fail_func = NULL; vf_fail_seen = 0; vf_fail_fired = 0; vf_fail_sticky = 0; vf_expand_requests = 0;
     vf_n_free_unknown = 0; vf_n_free_null = 0; vf_last_bad_free[0] = 0; vf_abort_msg[0] = 0; vf_n_overrun = 0; vf_last_overrun[0] = 0;
 }
 
